@@ -278,7 +278,10 @@ impl Property for C09 {
             let at = rng.below(ops.len());
             ops[at] = Op::Learn { epochs: rng.range(1, 4) as i32, with_val: true, tol: None, print: None };
         }
-        if headless {
+        // (half of them keep their validation operations: the unchanged library refuses to
+        // validate a network that does not end in a dense layer - a degenerate case - but a
+        // library that learns to do so has to do it in evaluation mode)
+        if headless && rng.chance(0.5) {
             for op in ops.iter_mut() {
                 *op = match op.clone() {
                     Op::Learn { epochs, print, .. } => Op::Learn { epochs, with_val: false, tol: None, print },
